@@ -124,6 +124,16 @@ def deep_agree(f, m, out, where, idxs=None):
         be = m.be_bytes()
         if f.as_byte_sequence != be:
             out.append(("C05:byte-sequence", "%s: %r model %r" % (where, f.as_byte_sequence, be)))
+        # the views are the caller's to use: a returned list that the caller extends (header, checksum), reverses or
+        # clears does not change what the frame says next time
+        handed = f.as_byte_sequence
+        if isinstance(handed, list):
+            handed.append(0x99)
+            handed.reverse()
+            handed[:1] = [0x11, 0x22]
+            if f.as_byte_sequence != be or f.pack != bytes(be) or f.as_integer != n:
+                out.append(("C05:view-shared-with-caller", "%s: after the caller edited the list as_byte_sequence had returned, "
+                            "as_byte_sequence is %r, pack %r, as_integer %#x; model %r" % (where, f.as_byte_sequence, f.pack, f.as_integer, be)))
         if f.pack != bytes(be):
             out.append(("C05:pack", "%s: %r model %r" % (where, f.pack, bytes(be))))
         nb = (w + 7) // 8
